@@ -57,9 +57,58 @@ func runC17(c *core.Ctx, drv string, idx int) {
 	cur := ""
 	var steps []c17Step
 	nsteps := r.Range(15, 60)
+	if idx%3 == 0 {
+		nsteps = r.Range(60, 120)
+	}
 	lastWasUse, lastFailedUse := "", false
 	nontrivial := false
 	sinceUseSameInsert := false
+	if idx%4 == 1 {
+		// scripted opening: a database with more than 7 tables (two-level
+		// catalog), a table whose root has moved, then away and back without
+		// a restart and further DML on that table
+		a, b := strings.ToLower(names[0]), strings.ToLower(names[1])
+		for _, nm := range []string{a, b} {
+			steps = append(steps, c17Step{kind: "create_db", name: nm})
+			dbs[nm] = &c17DB{m: model.NewDB(), grave: model.Graveyard{}, h: gen.NewHist(core.NewRand(r.U64()), true)}
+		}
+		steps = append(steps, c17Step{kind: "use", name: a, useCls: "other"})
+		cur = a
+		d := dbs[a]
+		d.h.MaxTables = 10
+		push := func(st *proto.Stmt) {
+			steps = append(steps, c17Step{kind: "stmt", stmt: st, text: model.RenderStmt(st, model.Plain)})
+		}
+		for i := 0; i < r.Range(8, 9); i++ {
+			ct := d.h.CreateTable()
+			d.h.DB.Apply(ct)
+			push(ct)
+		}
+		t := d.h.DB.Tables[r.Intn(len(d.h.DB.Tables))]
+		for len(t.Rows) < 10 {
+			ins := d.h.Insert(t, r.Range(3, 6))
+			if f, _, _, err := d.h.DB.Apply(ins); f == "" && err == nil {
+				push(ins)
+			}
+		}
+		if r.Bool() {
+			steps = append(steps, c17Step{kind: "pause", ms: 130})
+		}
+		steps = append(steps, c17Step{kind: "use", name: b, useCls: "other"}, c17Step{kind: "use", name: a, useCls: "other"})
+		del := d.h.Delete(t)
+		if f, _, _, err := d.h.DB.Apply(del); f == "" && err == nil {
+			push(del)
+		}
+		for k := 0; k < 2; k++ {
+			ins := d.h.Insert(t, r.Range(3, 6))
+			if f, _, _, err := d.h.DB.Apply(ins); f == "" && err == nil {
+				push(ins)
+			}
+		}
+		steps = append(steps, c17Step{kind: "use", name: b, useCls: "other"}, c17Step{kind: "use", name: a, useCls: "other"})
+		nsteps += len(steps)
+		c.Count("scripted_two_level_catalog_openings", 1)
+	}
 	for len(steps) < nsteps {
 		x := r.Intn(20)
 		if cur == "" && len(dbs) > 0 && r.Bool() {
@@ -78,6 +127,11 @@ func runC17(c *core.Ctx, drv string, idx int) {
 			if _, ok := dbs[strings.ToLower(nm)]; !ok {
 				dbs[strings.ToLower(nm)] = &c17DB{m: model.NewDB(), grave: model.Graveyard{}}
 				dbs[strings.ToLower(nm)].h = gen.NewHist(core.NewRand(r.U64()), true)
+				if r.Bool() {
+					// many tables: the catalog of this database becomes a
+					// two-level tree
+					dbs[strings.ToLower(nm)].h.MaxTables = r.Range(8, 10)
+				}
 			}
 		case x < 6:
 			var existing []string
